@@ -169,11 +169,15 @@ Definition unm_adjs (g : gv) : res (list (option madj)) :=
   | _ => Err
   end.
 
-(** MatrixSetup.UnmarshalOrdered *)
-Definition unm_setup (g : gv) : res (list (string * option (list string))) :=
+(** MatrixSetup.UnmarshalOrdered; None = the setup map stays nil (`setup: null`);
+    a null dimension value becomes an empty, non-nil value list *)
+Definition unm_setup (g : gv) : res (option (list (string * option (list string)))) :=
   match g with
-  | GSeq l => do ss <- mapM unm_string l; ret [("", Some ss)]
-  | GMap m => mapM (fun kv => do s <- unm_strings (snd kv); ret (fst kv, s)) m
+  | GNull => ret None
+  | GSeq l => do ss <- mapM unm_string l; ret (Some [("", Some ss)])
+  | GMap m => do su <- mapM (fun kv => do s <- unm_strings (snd kv);
+                                       ret (fst kv, Some (strings_or_nil s))) m;
+              ret (Some su)
   | _ => Err
   end.
 
@@ -185,7 +189,7 @@ Definition unm_matrix (g : gv) : res (option matrix) :=
   | GMap m =>
       let p := partition_keys struct_Matrix m in
       do su <- match field "Setup" p with
-               | Some v => do x <- unm_setup v; ret (Some x)
+               | Some v => unm_setup v
                | None => ret None
                end;
       do ad <- opt_field "Adjustments" p [] unm_adjs;
